@@ -223,14 +223,40 @@ func b01(b bool) int {
 	return 0
 }
 
+// conjDraw3 / conjDraw2: one transform list - its members, a description, whether it reverses orientation, whether it
+// has a non-affine member
+type conjDraw3 func(c *hlib.Ctx) (ts []model3d.Transform, desc string, rev bool, nonAffine bool)
+type conjDraw2 func(c *hlib.Ctx) (ts []model2d.Transform, desc string, rev bool)
+
 func runConj(c *hlib.Ctx) {
-	for i := 0; i < c.N/8+6; i++ {
-		delta := 1.0 / 32
-		s, family := candidate3(c, delta, 2, 8)
+	runConj3(c, c.N/8+6, "", func(c *hlib.Ctx) ([]model3d.Transform, string, bool, bool) {
 		// one list in five contains a NON-affine member (an axis squeeze): the outward theorems are about affine maps, so
 		// such a list is judged on the returned mesh itself only (soup3/mcj_squeeze: deciders + exact signed volume)
 		nonAffine := c.Rng.Intn(5) == 0
 		ts, desc, rev := conjXforms3(c, nonAffine)
+		return ts, desc, rev, nonAffine
+	})
+	runConj2(c, c.N/5+6, "", conjXforms2)
+}
+
+// pointFrameDet3: the determinant of the images of the three unit POINTS X(1), Y(1), Z(1) - for p -> M p + b it is
+// det(M + b 1^T) = det(M) (1 + 1^T M^-1 b), NOT det(M) (M3d.C01.point_frame_probe_is_not_the_determinant): a handedness
+// probe that forgets to subtract the image of the origin.  Only used for the statistics of the generator.
+func pointFrameDet3(t model3d.Transform) float64 {
+	x, y, z := t.Apply(model3d.X(1)), t.Apply(model3d.Y(1)), t.Apply(model3d.Z(1))
+	return x.Dot(y.Cross(z))
+}
+
+func pointFrameDet2(t model2d.Transform) float64 {
+	x, y := t.Apply(model2d.X(1)), t.Apply(model2d.Y(1))
+	return x.X*y.Y - x.Y*y.X
+}
+
+func runConj3(c *hlib.Ctx, n int, sfx string, draw conjDraw3) {
+	for i := 0; i < n; i++ {
+		delta := 1.0 / 32
+		s, family := candidate3(c, delta, 2, 8)
+		ts, desc, rev, nonAffine := draw(c)
 		iters := searchIters[c.Rng.Intn(len(searchIters))]
 		joined := model3d.JoinedTransform(ts)
 		solid := model3d.TransformSolid(joined, s)
@@ -241,15 +267,27 @@ func runConj(c *hlib.Ctx) {
 		}
 		l := newLat3(solid, d)
 		if !l.outerEmpty() {
-			c.Stat("c01.conj3.skipped_outer", 1)
+			c.Stat("c01.conj3"+sfx+".skipped_outer", 1)
 			continue
 		}
 		tag := fmt.Sprintf("fn=MarchingCubesConj delta=%v iters=%d rev=%d xforms=%s solid=%s %s", d, iters, b01(rev), desc, family, s.desc())
-		c.Stat("c01.conj3.cases", 1)
-		c.Stat(fmt.Sprintf("c01.conj3.reversing_%d", b01(rev)), 1)
-		c.Stat(fmt.Sprintf("c01.conj3.members_%d", len(ts)), 1)
+		c.Stat("c01.conj3"+sfx+".cases", 1)
+		c.Stat(fmt.Sprintf("c01.conj3%s.reversing_%d", sfx, b01(rev)), 1)
+		c.Stat(fmt.Sprintf("c01.conj3%s.members_%d", sfx, len(ts)), 1)
+		if !nonAffine {
+			// lists for which the translation part matters to a frame-of-points handedness probe (either direction)
+			if (pointFrameDet3(joined) < 0) != rev {
+				c.Stat("c01.conj3"+sfx+".point_frame_of_joined_has_wrong_sign", 1)
+			}
+			if (pointFrameDet3(joined.Inverse()) < 0) != rev {
+				c.Stat("c01.conj3"+sfx+".point_frame_of_inverse_has_wrong_sign", 1)
+				if rev {
+					c.Stat("c01.conj3"+sfx+".reversing_but_point_frame_of_inverse_nonnegative", 1)
+				}
+			}
+		}
 		if nonAffine {
-			c.Stat("c01.conj3.with_squeeze", 1)
+			c.Stat("c01.conj3"+sfx+".with_squeeze", 1)
 			var got *model3d.Mesh
 			r := guarded(func() string {
 				got = model3d.MarchingCubesConj(s, d, iters, ts...)
@@ -272,10 +310,13 @@ func runConj(c *hlib.Ctx) {
 			soup3(c, "mcj", func() *model3d.Mesh { return got }, tag)
 		}
 	}
-	for i := 0; i < c.N/5+6; i++ {
+}
+
+func runConj2(c *hlib.Ctx, n int, sfx string, draw conjDraw2) {
+	for i := 0; i < n; i++ {
 		delta := 1.0 / 64
 		s, family := candidate2(c, delta, 2)
-		ts, desc, rev := conjXforms2(c)
+		ts, desc, rev := draw(c)
 		iters := searchIters[c.Rng.Intn(len(searchIters))]
 		joined := model2d.JoinedTransform(ts)
 		solid := model2d.TransformSolid(joined, s)
@@ -285,12 +326,15 @@ func runConj(c *hlib.Ctx) {
 		}
 		l := newLat2(solid, d)
 		if !l.outerEmpty() {
-			c.Stat("c01.conj2.skipped_outer", 1)
+			c.Stat("c01.conj2"+sfx+".skipped_outer", 1)
 			continue
 		}
 		tag := fmt.Sprintf("fn=MarchingSquaresConj delta=%v iters=%d rev=%d xforms=%s solid=%s %s", d, iters, b01(rev), desc, family, s.desc())
-		c.Stat("c01.conj2.cases", 1)
-		c.Stat(fmt.Sprintf("c01.conj2.reversing_%d", b01(rev)), 1)
+		c.Stat("c01.conj2"+sfx+".cases", 1)
+		c.Stat(fmt.Sprintf("c01.conj2%s.reversing_%d", sfx, b01(rev)), 1)
+		if (pointFrameDet2(joined.Inverse()) < 0) != rev {
+			c.Stat("c01.conj2"+sfx+".point_frame_of_inverse_has_wrong_sign", 1)
+		}
 		op := fmt.Sprintf("c01 msj %d %d %s %d %s", len(l.xs), len(l.ys), boolBits(l.bits), b01(rev), tag)
 		var got *model2d.Mesh
 		c.EmitSite(op, guarded(func() string {
@@ -301,4 +345,267 @@ func runConj(c *hlib.Ctx) {
 			soup2(c, "msj", func() *model2d.Mesh { return got }, tag)
 		}
 	}
+}
+
+// ---- transform lists in which the TRANSLATIONS matter (round 5)
+//
+// The orientation of an affine map p -> M p + b is the sign of det M, whatever b is (M3d.C01.conj_flip_iff_reversing is
+// about every Aff3, M3d.C01.conj_translation_is_irrelevant says so explicitly).  The lists of conjXforms3 keep their
+// offsets within 1/2 of the origin; here the offsets reach 8 (in eighths, exact) and the lists are the ones a caller
+// writes for a mirror image about a plane / a point / a diagonal plane that does NOT pass through the origin:
+// Translate(-c), reflect, Translate(c); glide reflections; random lists with at least one far translation.
+
+type listB3 struct {
+	ts   []model3d.Transform
+	desc string
+	det  float64
+}
+
+func (b *listB3) tr(o model3d.Coord3D) {
+	b.ts = append(b.ts, &model3d.Translate{Offset: o})
+	b.desc += fmt.Sprintf("T(%v,%v,%v)", o.X, o.Y, o.Z)
+}
+
+func (b *listB3) vs(sc model3d.Coord3D) {
+	b.ts = append(b.ts, &model3d.VecScale{Scale: sc})
+	b.desc += fmt.Sprintf("V(%v,%v,%v)", sc.X, sc.Y, sc.Z)
+	b.det *= sc.X * sc.Y * sc.Z
+}
+
+func (b *listB3) sc(s float64) {
+	b.ts = append(b.ts, &model3d.Scale{Scale: s})
+	b.desc += fmt.Sprintf("S(%v)", s)
+	b.det *= s * s * s
+}
+
+// signed permutation matrix (factors +-1, one in four doubled)
+func (b *listB3) perm(c *hlib.Ctx, perm []int) {
+	var cols [3]model3d.Coord3D
+	d := permParity(perm)
+	for j := 0; j < 3; j++ {
+		f := signPow2(c, 0, 0)
+		if c.Rng.Intn(4) == 0 {
+			f *= 2
+		}
+		var a [3]float64
+		a[perm[j]] = f
+		cols[j] = model3d.NewCoord3DArray(a)
+		d *= f
+	}
+	m := model3d.NewMatrix3Columns(cols[0], cols[1], cols[2])
+	b.ts = append(b.ts, &model3d.Matrix3Transform{Matrix: m})
+	b.desc += "M" + strings.ReplaceAll(fmt.Sprint(*m), " ", ",")
+	b.det *= d
+}
+
+func farOffset(c *hlib.Ctx) float64 { return float64(c.Rng.Intn(129)-64) / 8 }
+
+func farPoint3(c *hlib.Ctx) model3d.Coord3D {
+	p := model3d.XYZ(farOffset(c), farOffset(c), farOffset(c))
+	if c.Rng.Intn(3) == 0 { // along one axis only
+		arr := [3]float64{}
+		ax := c.Rng.Intn(3)
+		arr[ax] = p.Array()[ax]
+		p = model3d.NewCoord3DArray(arr)
+	}
+	return p
+}
+
+// conjFar3: forced = 0..5 draws the mirror image about the plane x_ax = cc with ax = forced % 3 and cc > 0 for forced < 3,
+// cc < 0 otherwise (every run has all six); forced < 0: a random family.
+func conjFar3(c *hlib.Ctx, forced int) ([]model3d.Transform, string, bool, bool) {
+	b := &listB3{det: 1}
+	family := c.Rng.Intn(6)
+	if forced >= 0 {
+		family = 0
+	}
+	switch family {
+	case 0: // mirror image about the plane x_ax = cc
+		ax := c.Rng.Intn(3)
+		var o, sc [3]float64
+		o[ax] = farOffset(c)
+		if forced >= 0 {
+			ax = forced % 3
+			o = [3]float64{}
+			o[ax] = float64(1+c.Rng.Intn(64)) / 8
+			if forced >= 3 {
+				o[ax] = -o[ax]
+			}
+		}
+		sc = [3]float64{1, 1, 1}
+		sc[ax] = -1
+		b.tr(model3d.NewCoord3DArray(o).Scale(-1))
+		b.vs(model3d.NewCoord3DArray(sc))
+		b.tr(model3d.NewCoord3DArray(o))
+	case 1: // point reflection about p (in space: orientation-reversing), or a half turn about an axis through p
+		p := farPoint3(c)
+		b.tr(p.Scale(-1))
+		if c.Rng.Intn(2) == 0 {
+			b.sc(-1)
+		} else {
+			sc := [3]float64{-1, -1, -1}
+			sc[c.Rng.Intn(3)] = 1
+			b.vs(model3d.NewCoord3DArray(sc))
+		}
+		b.tr(p)
+	case 2: // signed permutation (a mirror image about a diagonal plane, a quarter turn, …) about the point p
+		p := farPoint3(c)
+		b.tr(p.Scale(-1))
+		b.perm(c, c.Rng.Perm(3))
+		b.tr(p)
+	case 3: // glide: a (possibly reflecting) scale and one far translation, in either order
+		sc := model3d.XYZ(signPow2(c, -1, 1), signPow2(c, -1, 1), signPow2(c, -1, 1))
+		if c.Rng.Intn(2) == 0 {
+			b.tr(farPoint3(c))
+			b.vs(sc)
+		} else {
+			b.vs(sc)
+			b.tr(farPoint3(c))
+		}
+	default: // 2-4 random members, far translations among them
+		hasT := false
+		for n := 2 + c.Rng.Intn(3); n > 0; n-- {
+			k := c.Rng.Intn(5)
+			if n == 1 && !hasT {
+				k = 0
+			}
+			switch k {
+			case 0, 1:
+				b.tr(farPoint3(c))
+				hasT = true
+			case 2:
+				b.vs(model3d.XYZ(signPow2(c, -2, 2), signPow2(c, -2, 2), signPow2(c, -2, 2)))
+			case 3:
+				b.sc(signPow2(c, -1, 1))
+			default:
+				b.perm(c, c.Rng.Perm(3))
+			}
+		}
+	}
+	c.Stat(fmt.Sprintf("c01.conj3far.family_%d", family), 1)
+	return b.ts, b.desc, b.det < 0, false
+}
+
+func conjFar2(c *hlib.Ctx, forced int) ([]model2d.Transform, string, bool) {
+	var ts []model2d.Transform
+	desc := ""
+	det := 1.0
+	tr := func(o model2d.Coord) {
+		ts = append(ts, &model2d.Translate{Offset: o})
+		desc += fmt.Sprintf("T(%v,%v)", o.X, o.Y)
+	}
+	vs := func(sc model2d.Coord) {
+		ts = append(ts, &model2d.VecScale{Scale: sc})
+		desc += fmt.Sprintf("V(%v,%v)", sc.X, sc.Y)
+		det *= sc.X * sc.Y
+	}
+	perm := func() {
+		p := c.Rng.Perm(2)
+		var cols [2]model2d.Coord
+		d := permParity(p)
+		for j := 0; j < 2; j++ {
+			f := signPow2(c, 0, 0)
+			if c.Rng.Intn(4) == 0 {
+				f *= 2
+			}
+			var a [2]float64
+			a[p[j]] = f
+			cols[j] = model2d.NewCoordArray(a)
+			d *= f
+		}
+		m := model2d.NewMatrix2Columns(cols[0], cols[1])
+		ts = append(ts, &model2d.Matrix2Transform{Matrix: m})
+		desc += "M" + strings.ReplaceAll(fmt.Sprint(*m), " ", ",")
+		det *= d
+	}
+	far := func() model2d.Coord {
+		p := model2d.XY(farOffset(c), farOffset(c))
+		switch c.Rng.Intn(4) {
+		case 0:
+			p.X = 0
+		case 1:
+			p.Y = 0
+		}
+		return p
+	}
+	family := c.Rng.Intn(4)
+	if forced >= 0 {
+		family = 0
+	}
+	switch family {
+	case 0: // mirror image about the line x = cc or y = cc (forced 0..3: x/y, cc > 0 / cc < 0)
+		p := far()
+		sc := model2d.XY(-1, 1)
+		vertical := c.Rng.Intn(2) == 0
+		if forced >= 0 {
+			vertical = forced%2 == 0
+			v := float64(1+c.Rng.Intn(64)) / 8
+			if forced >= 2 {
+				v = -v
+			}
+			p = model2d.XY(v, v)
+		}
+		if vertical {
+			p.Y = 0
+		} else {
+			p.X = 0
+			sc = model2d.XY(1, -1)
+		}
+		tr(p.Scale(-1))
+		vs(sc)
+		tr(p)
+	case 1: // signed permutation about the point p (mirror image about a diagonal, quarter turn)
+		p := far()
+		tr(p.Scale(-1))
+		perm()
+		tr(p)
+	case 2: // glide
+		sc := model2d.XY(signPow2(c, -1, 1), signPow2(c, -1, 1))
+		if c.Rng.Intn(2) == 0 {
+			tr(far())
+			vs(sc)
+		} else {
+			vs(sc)
+			tr(far())
+		}
+	default:
+		hasT := false
+		for n := 2 + c.Rng.Intn(3); n > 0; n-- {
+			k := c.Rng.Intn(4)
+			if n == 1 && !hasT {
+				k = 0
+			}
+			switch k {
+			case 0, 1:
+				tr(far())
+				hasT = true
+			case 2:
+				vs(model2d.XY(signPow2(c, -2, 2), signPow2(c, -2, 2)))
+			default:
+				perm()
+			}
+		}
+	}
+	c.Stat(fmt.Sprintf("c01.conj2far.family_%d", family), 1)
+	return ts, desc, det < 0
+}
+
+// runConjFar: MarchingCubesConj / MarchingSquaresConj with the lists above (kinds mcj / msj, soup3/mcj, soup2/msj).
+func runConjFar(c *hlib.Ctx) {
+	k3 := 0
+	runConj3(c, c.N/6+12, "far", func(c *hlib.Ctx) ([]model3d.Transform, string, bool, bool) {
+		k3++
+		if k3 <= 6 {
+			return conjFar3(c, k3-1)
+		}
+		return conjFar3(c, -1)
+	})
+	k2 := 0
+	runConj2(c, c.N/6+10, "far", func(c *hlib.Ctx) ([]model2d.Transform, string, bool) {
+		k2++
+		if k2 <= 4 {
+			return conjFar2(c, k2-1)
+		}
+		return conjFar2(c, -1)
+	})
 }
